@@ -197,6 +197,10 @@ func c19World(t *testing.T, r *simcore.Run) any {
 			if tp.Bool(1, 2, "neg") {
 				off = -off
 			}
+			if !realDriver && tp.Bool(1, 40, "most-negative") {
+				off = math.MinInt64 // has no negation: the correction keeps its direction all the same
+				r.Probe("most-negative-offset")
+			}
 			weight := []float64{0, 1, 3, 3.0000001, 4, 49, 50, 100, 149, 150, 1000, 1e6, 150, 1000,
 				math.NaN(), math.Inf(1), math.Inf(-1), -1, math.MaxFloat64, math.SmallestNonzeroFloat64}[tp.Intn(20, "w")]
 			if weight != weight || math.IsInf(weight, 0) {
@@ -238,7 +242,8 @@ func c19World(t *testing.T, r *simcore.Run) any {
 					if !ok {
 						r.Fail("C19", "step/not-allowed", "update %d: Step(%v) with %v since the epoch's first update, weight %v, offset %v, initial step already decided: %v",
 							k, c.off, sinceStart, weight, off, m.decided)
-					} else if c.off != off {
+					} else if c.off != off && !(off == math.MinInt64 && c.off == math.MinInt64+1) {
+						// (the one value without a negation is stepped by its neighbour)
 						r.Fail("C19", "step/amount", "update %d: Step(%v) for measured offset %v", k, c.off, off)
 					}
 					r.Probe("step")
